@@ -3,6 +3,7 @@ package main
 import (
 	"errors"
 	"fmt"
+	"strings"
 	"sync"
 	"sync/atomic"
 	"time"
@@ -59,6 +60,36 @@ var causeTable = map[string]causeSpec{
 	"m.xmeta":   {eq(errMetaExit), errMetaExit},
 	"m.pdie":    {eq(errPDied), errPDied},
 	"m.pkill":   {eq(gen.TerminateReasonKill), gen.TerminateReasonKill},
+}
+
+var errCustom = errors.New("c05-custom-exit")
+
+// reasonByName: every class of reason an exit signal may carry
+var reasonByName = map[string]error{
+	"normal":   gen.TerminateReasonNormal,
+	"shutdown": gen.TerminateReasonShutdown,
+	"kill":     gen.TerminateReasonKill,
+	"panic":    gen.TerminateReasonPanic,
+	"custom":   errCustom,
+	"wrapped":  errWrapped,
+}
+
+var reasonNames = []string{"normal", "shutdown", "kill", "panic", "custom", "wrapped"}
+
+func init() {
+	// exit signals with a named reason: "pexit=<reason>" (from the parent), "fexit=<reason>" (from a non-parent)
+	for rn, r := range reasonByName {
+		for _, src := range []string{"pexit", "fexit"} {
+			causeTable[src+"="+rn] = causeSpec{is(r), r}
+		}
+	}
+}
+
+func unwrapOr(e error) error {
+	if u := errors.Unwrap(e); u != nil {
+		return u
+	}
+	return e
 }
 
 // causeOf maps an action name to the cause it raises
@@ -166,6 +197,7 @@ type spawnRes struct {
 type spawnChild struct {
 	F    gen.ProcessFactory
 	Opts gen.ProcessOptions
+	Args []any
 	Done chan spawnRes
 }
 
@@ -185,6 +217,11 @@ type sendExitMeta struct {
 	To     gen.Alias
 	Reason error
 	Done   chan error
+}
+
+type inspectReq struct {
+	To   gen.PID
+	Item string
 }
 
 type callReq struct {
@@ -213,11 +250,52 @@ func then(t string) error {
 }
 
 // victimHooks: behaviour of an act.Actor victim
-func victimHooks(trap bool) *actors.Hooks {
+// termPanic: the terminate callback panics, but only on its first entry, so that a wrong second
+// invocation is recorded instead of crashing the monitor
+func termPanic(i *actors.Inst) {
+	if i.TermCount.Load() == 1 {
+		panic("c05 requested panic in the terminate callback")
+	}
+}
+
+func victimHooks(trap bool) *actors.Hooks { return victimHooksT(trap, false) }
+
+func victimHooksT(trap, tpanic bool) *actors.Hooks {
+	h := victimHooks0(trap)
+	if tpanic {
+		h.Terminate = func(p *actors.Probe, reason error) { termPanic(p.I) }
+	}
+	return h
+}
+
+func victimHooks0(trap bool) *actors.Hooks {
 	return &actors.Hooks{
 		Init: func(p *actors.Probe, args ...any) error {
 			if trap {
 				p.SetTrapExit(true)
+			}
+			if len(args) > 0 {
+				if a, ok := args[0].(string); ok && a == "init-panic" {
+					panic("c05 requested panic in Init")
+				}
+				if e, ok := args[0].(error); ok {
+					return e
+				}
+			}
+			return nil
+		},
+		Inspect: func(p *actors.Probe, from gen.PID, item ...string) map[string]string {
+			if len(item) > 0 && item[0] == "panic" {
+				panic("c05 requested panic in HandleInspect")
+			}
+			return map[string]string{"c05": "ok"}
+		},
+		Log: func(p *actors.Probe, m gen.MessageLog) error {
+			if strings.Contains(m.Format, "c05-log-panic") {
+				panic("c05 requested panic in HandleLog")
+			}
+			if strings.Contains(m.Format, "c05-log-err") {
+				return errHandler
 			}
 			return nil
 		},
@@ -318,7 +396,7 @@ func agentHooks() *actors.Hooks {
 				close(m.Entered)
 				<-m.Release
 			case spawnChild:
-				pid, err := p.Spawn(m.F, m.Opts)
+				pid, err := p.Spawn(m.F, m.Opts, m.Args...)
 				m.Done <- spawnRes{pid, err}
 			case spawnMeta:
 				a, err := p.SpawnMeta(m.M, gen.MetaOptions{})
@@ -330,6 +408,14 @@ func agentHooks() *actors.Hooks {
 				m.Done <- p.SendExitMeta(m.To, m.Reason)
 			case callReq:
 				p.CallWithTimeout(m.To, m.Msg, m.Timeout)
+			case inspectReq:
+				p.Inspect(m.To, m.Item)
+			case ping:
+				close(m.Done)
+			case string:
+				if m == "panic" {
+					panic("c05 requested panic")
+				}
 			case regEvent:
 				tok, err := p.RegisterEvent(m.Name, gen.EventOptions{})
 				if err != nil {
@@ -490,6 +576,10 @@ type victim struct {
 	issued []issue
 	// fexitOK counts foreign exits whose SendExit returned nil
 	fexitOK int
+	// xFatal: whether the exit signal of an exit-table case ("x") terminates this victim
+	xFatal bool
+	// tpanic: the terminate callback panics on its first entry
+	tpanic bool
 	// mustEnd: a cause that takes effect asynchronously without passing the mailbox was issued
 	// (the meta main loop was told to return): only termination is a settled state
 	mustEnd atomic.Bool
@@ -504,7 +594,10 @@ func (v *victim) subject() any {
 
 // fatalFor tells whether a cause terminates this kind of victim when it takes effect
 func (v *victim) fatalFor(c string) bool {
-	if c == "fexit" || c == "linkexit" {
+	if c == "x" {
+		return v.xFatal
+	}
+	if c == "linkexit" || strings.HasPrefix(c, "fexit") {
 		return v.kind != "trap"
 	}
 	return true
@@ -730,7 +823,9 @@ func judge(v *victim, ended bool, exact string, checkObs bool, r *result) {
 		}
 		return s
 	}
-	if tc > 1 {
+	if tc > 1 && v.kind == "meta" && v.tpanic {
+		r.fail("meta-terminate-panic-runs-terminate-again", "%s (%s): the Terminate callback panicked and was invoked again: it ran %d times; causes %v", v.label, v.subject(), tc, iss)
+	} else if tc > 1 {
 		r.fail("terminate-twice", "%s (%s): terminate callback ran %d times; causes %v", v.label, v.subject(), tc, iss)
 	}
 	if n := i.AfterTerm.Load(); n > 0 {
@@ -871,14 +966,76 @@ func spawnAgent(n gen.Node, label string) (gen.PID, *actors.Inst, error) {
 	return pid, i, err
 }
 
+// factoryFor: kind is actor | trap | raw, with the suffix "!" when the terminate callback shall panic
 func factoryFor(kind, label string) (gen.ProcessFactory, *actors.Inst) {
-	switch kind {
+	tp := strings.HasSuffix(kind, "!")
+	switch strings.TrimSuffix(kind, "!") {
 	case "raw":
+		if tp {
+			return newPRaw(label)
+		}
 		return actors.NewRaw(label, rawHooks())
 	case "trap":
-		return actors.NewProbe(label, victimHooks(true))
+		return actors.NewProbe(label, victimHooksT(true, tp))
 	}
-	return actors.NewProbe(label, victimHooks(false))
+	return actors.NewProbe(label, victimHooksT(false, tp))
+}
+
+// pRaw: raw gen.ProcessBehavior whose terminate callback panics on its first entry
+type pRaw struct {
+	gen.Process
+	I *actors.Inst
+	h *actors.RawHooks
+}
+
+func newPRaw(label string) (gen.ProcessFactory, *actors.Inst) {
+	i := &actors.Inst{Label: label}
+	return func() gen.ProcessBehavior { return &pRaw{I: i, h: rawHooks()} }, i
+}
+
+func (r *pRaw) ProcessInit(p gen.Process, args ...any) error {
+	x := r.I.Enter("init")
+	defer r.I.Exit(x)
+	r.Process = p
+	r.I.PID = p.PID()
+	return nil
+}
+
+func (r *pRaw) ProcessRun() error {
+	x := r.I.Enter("run")
+	defer r.I.Exit(x)
+	mb := r.Mailbox()
+	for {
+		if r.State() != gen.ProcessStateRunning {
+			return gen.TerminateReasonKill
+		}
+		v, ok := mb.Urgent.Pop()
+		if !ok {
+			v, ok = mb.System.Pop()
+		}
+		if !ok {
+			v, ok = mb.Main.Pop()
+		}
+		if !ok {
+			return nil
+		}
+		m := v.(*gen.MailboxMessage)
+		if m.Type == gen.MailboxMessageTypeExit {
+			if e, ok := m.Message.(gen.MessageExitPID); ok {
+				return e.Reason
+			}
+		}
+		if err := r.h.Handle(nil, m); err != nil {
+			return err
+		}
+	}
+}
+
+func (r *pRaw) ProcessTerminate(reason error) {
+	x := r.I.Enter("terminate")
+	defer r.I.Exit(x)
+	r.I.Set(x, func(e *actors.Ev) { e.Err = reason })
+	termPanic(r.I)
 }
 
 func spawnVictim(n gen.Node, parent gen.PID, kind, label string) (*victim, error) {
@@ -892,7 +1049,7 @@ func spawnVictim(n gen.Node, parent gen.PID, kind, label string) (*victim, error
 		if res.Err != nil {
 			return nil, res.Err
 		}
-		v := &victim{node: n, kind: kind, label: label, inst: inst, pid: res.PID, parent: parent, foreign: foreign}
+		v := &victim{node: n, kind: strings.TrimSuffix(kind, "!"), tpanic: strings.HasSuffix(kind, "!"), label: label, inst: inst, pid: res.PID, parent: parent, foreign: foreign}
 		// the spawn runs p.run() once: wait until that first runner is over (state back to Sleep)
 		if !hk.WaitUntil(10*time.Second, v.idle) {
 			return nil, errors.New("watchdog: spawned victim did not become idle")
